@@ -99,12 +99,14 @@ V_ENSURES(g.fetch_calls == V_OLD(g.fetch_calls) + 1)
 /* ---- other core files, as seen from a caller ------------------------------------------------------------------- */
 /* m_ctx(): the calling thread's context, or NULL (none registered / current module denies context access); verified
  * against the real function in units/ctx_unit.c (h_m_ctx).  g_mctx is the ghost value it returns in this pre-state. */
+#ifndef V_ENFORCE_M_CTX   /* (unit ctx.m_ctx proves the real m_ctx() against its concrete contract instead) */
 V_CONTRACT
 m_ctx_t *m_ctx(void)
 V_REQUIRES(1)
 V_ASSIGNS()
 V_ENSURES(__CPROVER_pointer_equals(V_RET, g_mctx))
 ;
+#endif
 
 V_CONTRACT
 bool m_mod_is(const m_mod_t *mod, m_mod_states st)
@@ -176,12 +178,14 @@ V_REQUIRES(1)
 V_ASSIGNS(g.fscleanup_calls)
 V_ENSURES(g.fscleanup_calls == V_OLD(g.fscleanup_calls) + 1)
 ;
+#ifndef V_CTXAPI_UNIT
 V_CONTRACT
 int m_ctx_deregister(void)
 V_REQUIRES(1)
 V_ASSIGNS(g.ctxdereg_calls)
 V_ENSURES(V_RET == g_ctxdereg_ret && g.ctxdereg_calls == V_OLD(g.ctxdereg_calls) + 1)
 ;
+#endif
 /* modules bound to the focus module are not modelled: the units assume an empty bound list, so iteration never starts */
 V_CONTRACT
 m_list_itr_t *m_list_itr_new(const m_list_t *l)
